@@ -8,10 +8,14 @@ package cmd
 // representative queries are served through the real handler chain.
 
 import (
+	"bytes"
 	"context"
 	"crypto/tls"
+	"encoding/binary"
+	"encoding/hex"
 	"errors"
 	"fmt"
+	"io"
 	"math"
 	"net"
 	"net/http"
@@ -42,12 +46,16 @@ import (
 	"github.com/AdguardTeam/AdGuardDNS/internal/profiledb"
 	"github.com/AdguardTeam/AdGuardDNS/internal/querylog"
 	"github.com/AdguardTeam/AdGuardDNS/internal/rulestat"
+	"github.com/AdguardTeam/AdGuardDNS/internal/tlsconfig"
 	"github.com/AdguardTeam/AdGuardDNS/internal/websvc"
 	"github.com/AdguardTeam/golibs/logutil/slogutil"
 	"github.com/AdguardTeam/golibs/netutil"
+	"github.com/ameshkov/dnscrypt/v2"
+	"github.com/ameshkov/dnsstamps"
 	"github.com/miekg/dns"
 	"github.com/panjf2000/ants/v2"
 	"github.com/prometheus/client_golang/prometheus"
+	"github.com/quic-go/quic-go"
 )
 
 // vc20Outcome is the result of exercising one accepted configuration.
@@ -68,6 +76,25 @@ type vc20Outcome struct {
 
 	// geo is the GeoIP database that was built.
 	geo *geoip.File
+
+	// realListenerFailed tells that a really started listener did not answer.
+	realListenerFailed bool
+
+	// noTLSSectionPanic is the failure of builder.initTLSManager on a
+	// configuration that has a server group without a tls section.
+	noTLSSectionPanic string
+}
+
+// vc20HasGroupWithoutTLS reports whether a server group of c has no tls
+// section.
+func vc20HasGroupWithoutTLS(c *configuration) (ok bool) {
+	for _, g := range c.ServerGroups {
+		if g != nil && g.TLS == nil {
+			return true
+		}
+	}
+
+	return false
 }
 
 func (o *vc20Outcome) fail(format string, args ...any) {
@@ -636,7 +663,35 @@ func (fx *vc20Fixture) vc20Exercise(c *configuration) (o *vc20Outcome) {
 	}
 
 	okMsgs := o.step("messages", func() (err error) { return b.initMsgConstructor(ctx) })
+	nFail := len(o.failures)
 	okTLS := o.step("tls-manager", func() (err error) { return b.initTLSManager(ctx) })
+	if !okTLS && len(o.failures) == nFail+1 && vc20HasGroupWithoutTLS(c) {
+		// The finding vc20KnownNoTLSSection: collecting the session-ticket
+		// paths dereferences the absent tls section of a group that needs
+		// none.  The failure is kept aside for the caller to judge, and the
+		// manager is made the way initTLSManager would have made it, so that
+		// the exercise goes on behind the finding.
+		o.noTLSSectionPanic = o.failures[nFail]
+		o.failures = o.failures[:nFail]
+		okTLS = o.step("tls-manager-behind-finding", func() (err error) {
+			var paths []string
+			for _, g := range c.ServerGroups {
+				if g.TLS != nil {
+					paths = append(paths, g.TLS.SessionKeys...)
+				}
+			}
+
+			b.tlsManager, err = tlsconfig.NewDefaultManager(&tlsconfig.DefaultManagerConfig{
+				Logger:             logger,
+				ErrColl:            errColl,
+				Metrics:            tlsconfig.EmptyMetrics{},
+				KeyLogFilename:     envs.SSLKeyLogFile,
+				SessionTicketPaths: paths,
+			})
+
+			return err
+		})
+	}
 
 	strg := &agdtest.FilterStorage{
 		OnForConfig: func(_ context.Context, _ filter.Config) (f filter.Interface) { return filter.Empty{} },
@@ -783,22 +838,25 @@ func (fx *vc20Fixture) vc20Exercise(c *configuration) (o *vc20Outcome) {
 	}
 
 	// The listeners are created with the package's own constructor.  They are
-	// not started, except the first DNS-over-TLS listener bound to an address:
-	// that one is moved to an ephemeral loopback port and serves real
-	// connections below.
+	// not started, except the first listener of every protocol that is bound
+	// to an address: that one is moved to an ephemeral loopback port and
+	// serves real connections below.
 	var listeners []dnssvc.Listener
-	var dot dnssvc.Listener
+	var realOrder []agd.Protocol
+	real := map[agd.Protocol]*vc20RealListener{}
 	newListener := func(s *agd.Server, bc dnsserver.ConfigBase, nonDNS http.Handler) (l dnssvc.Listener, err error) {
-		isDoT := s.Protocol == agd.ProtoDoT && dot == nil && len(s.BindData()) > 0 && s.BindData()[0].PrefixAddr == nil
-		if isDoT {
+		_, have := real[s.Protocol]
+		isReal := !have && len(s.BindData()) > 0 && s.BindData()[0].PrefixAddr == nil
+		if isReal {
 			bc.Addr = "127.0.0.1:0"
 		}
 
 		l, err = dnssvc.NewListener(s, bc, nonDNS)
 		if l != nil {
 			listeners = append(listeners, l)
-			if isDoT {
-				dot = l
+			if isReal {
+				real[s.Protocol] = &vc20RealListener{l: l, srv: s}
+				realOrder = append(realOrder, s.Protocol)
 			}
 		}
 
@@ -833,8 +891,8 @@ func (fx *vc20Fixture) vc20Exercise(c *configuration) (o *vc20Outcome) {
 	}
 
 	fx.vc20Queries(o, c, handlers, b.serverGroups)
-	if dot != nil {
-		o.vc20RealDoT(c, dot)
+	for _, p := range realOrder {
+		o.vc20RealListener(c, real[p])
 	}
 
 	o.classes = append(o.classes, "exercise-full")
@@ -843,14 +901,247 @@ func (fx *vc20Fixture) vc20Exercise(c *configuration) (o *vc20Outcome) {
 	return o
 }
 
-// vc20RealDoT starts the real DNS-over-TLS listener on a loopback port and
-// sends two pipelined queries over one TLS connection: the connection limiter,
-// the read, write and idle timeouts, the pipeline limit and the handle timeout
-// are those of the configuration.
-func (o *vc20Outcome) vc20RealDoT(c *configuration, l dnssvc.Listener) {
+// vc20RealListener is a listener that is really started, with its server.
+type vc20RealListener struct {
+	l   dnssvc.Listener
+	srv *agd.Server
+}
+
+// vc20DNSCryptPublicKey is the provider public key of the DNSCrypt
+// configuration of the distributed example.
+const vc20DNSCryptPublicKey = "F11DDBCC4817E543845FDDD4CB881849B64226F3DE397625669D87B919BC4FB0"
+
+// vc20ClientTLS returns the TLS configuration of the harness clients.
+func vc20ClientTLS(alpn ...string) (conf *tls.Config) {
+	return &tls.Config{InsecureSkipVerify: true, ServerName: "dns.example.com", NextProtos: alpn}
+}
+
+// vc20CheckAnswer returns an error if resp is not the upstream's answer to req.
+func vc20CheckAnswer(req, resp *dns.Msg) (err error) {
+	if resp == nil || resp.Id != req.Id || resp.Rcode != dns.RcodeSuccess || len(resp.Answer) == 0 {
+		return fmt.Errorf("unexpected response: %v", resp)
+	}
+
+	return nil
+}
+
+// vc20ExchangeDoT sends two pipelined queries over one TLS connection.
+func vc20ExchangeDoT(l dnssvc.Listener) (got int, err error) {
+	cli := &dns.Client{Net: "tcp-tls", TLSConfig: vc20ClientTLS(), Timeout: 5 * time.Second}
+	conn, err := cli.Dial(l.LocalTCPAddr().String())
+	if err != nil {
+		return 0, err
+	}
+	defer func() { _ = conn.Close() }()
+
+	_ = conn.SetDeadline(time.Now().Add(5 * time.Second))
+	reqs := map[uint16]*dns.Msg{}
+	for i, name := range []string{"c20-dot-1.example.net.", "c20-dot-2.example.net."} {
+		req := (&dns.Msg{}).SetQuestion(name, dns.TypeA)
+		req.Id = uint16(0xD070 + i)
+		reqs[req.Id] = req
+		if err = conn.WriteMsg(req); err != nil {
+			return 0, err
+		}
+	}
+
+	for range 2 {
+		var resp *dns.Msg
+		resp, err = conn.ReadMsg()
+		if err != nil {
+			return got, err
+		}
+
+		req, ok := reqs[resp.Id]
+		if !ok {
+			return got, fmt.Errorf("unexpected response: %v", resp)
+		} else if err = vc20CheckAnswer(req, resp); err != nil {
+			return got, err
+		}
+
+		delete(reqs, resp.Id)
+		got++
+	}
+
+	return got, nil
+}
+
+// vc20ExchangeDoQ sends one query over a QUIC connection, RFC 9250.
+func vc20ExchangeDoQ(l dnssvc.Listener) (got int, err error) {
+	ctx, cancel := context.WithTimeout(context.Background(), 5*time.Second)
+	defer cancel()
+
+	conn, err := quic.DialAddr(ctx, l.LocalUDPAddr().String(), vc20ClientTLS("doq"), &quic.Config{})
+	if err != nil {
+		return 0, fmt.Errorf("dialing: %w", err)
+	}
+	defer func() { _ = conn.CloseWithError(0, "") }()
+
+	stream, err := conn.OpenStreamSync(ctx)
+	if err != nil {
+		return 0, fmt.Errorf("opening stream: %w", err)
+	}
+
+	req := (&dns.Msg{}).SetQuestion("c20-doq.example.net.", dns.TypeA)
+	req.Id = 0
+	data, err := req.Pack()
+	if err != nil {
+		return 0, err
+	}
+
+	buf := binary.BigEndian.AppendUint16(nil, uint16(len(data)))
+	_ = stream.SetDeadline(time.Now().Add(5 * time.Second))
+	if _, err = stream.Write(append(buf, data...)); err != nil {
+		return 0, fmt.Errorf("writing: %w", err)
+	}
+
+	// A DoQ client must send a FIN to indicate that the query is finished.
+	if err = stream.Close(); err != nil {
+		return 0, fmt.Errorf("closing stream: %w", err)
+	}
+
+	respBytes, err := io.ReadAll(stream)
+	if err != nil {
+		return 0, fmt.Errorf("reading: %w", err)
+	} else if len(respBytes) < 2+12 {
+		return 0, fmt.Errorf("short response of %d octets", len(respBytes))
+	}
+
+	resp := &dns.Msg{}
+	if err = resp.Unpack(respBytes[2:]); err != nil {
+		return 0, fmt.Errorf("unpacking: %w", err)
+	}
+
+	return 1, vc20CheckAnswer(req, resp)
+}
+
+// vc20ExchangeDoH sends one query as an HTTP POST over TLS, RFC 8484.
+func vc20ExchangeDoH(l dnssvc.Listener) (got int, err error) {
+	tr := &http.Transport{TLSClientConfig: vc20ClientTLS(), ForceAttemptHTTP2: true}
+	defer tr.CloseIdleConnections()
+
+	cli := &http.Client{Transport: tr, Timeout: 5 * time.Second}
+	req := (&dns.Msg{}).SetQuestion("c20-doh.example.net.", dns.TypeA)
+	req.Id = 0
+	data, err := req.Pack()
+	if err != nil {
+		return 0, err
+	}
+
+	u := "https://" + l.LocalTCPAddr().String() + "/dns-query"
+	httpResp, err := cli.Post(u, "application/dns-message", bytes.NewReader(data))
+	if err != nil {
+		return 0, err
+	}
+	defer func() { _ = httpResp.Body.Close() }()
+
+	body, err := io.ReadAll(httpResp.Body)
+	if err != nil {
+		return 0, fmt.Errorf("reading: %w", err)
+	} else if httpResp.StatusCode != http.StatusOK {
+		return 0, fmt.Errorf("status %d: %q", httpResp.StatusCode, body)
+	}
+
+	resp := &dns.Msg{}
+	if err = resp.Unpack(body); err != nil {
+		return 0, fmt.Errorf("unpacking: %w", err)
+	}
+
+	return 1, vc20CheckAnswer(req, resp)
+}
+
+// vc20ExchangeDNSCrypt fetches the certificate and sends one query over UDP.
+func vc20ExchangeDNSCrypt(l dnssvc.Listener, srv *agd.Server) (got int, err error) {
+	pk, err := hex.DecodeString(vc20DNSCryptPublicKey)
+	if err != nil {
+		return 0, err
+	}
+
+	cli := &dnscrypt.Client{Timeout: 5 * time.Second, Net: "udp", UDPSize: 4096}
+	ri, err := cli.DialStamp(dnsstamps.ServerStamp{
+		ServerAddrStr: l.LocalUDPAddr().String(),
+		ServerPk:      pk,
+		ProviderName:  srv.DNSCrypt.ProviderName,
+		Proto:         dnsstamps.StampProtoTypeDNSCrypt,
+	})
+	if err != nil {
+		return 0, fmt.Errorf("fetching the certificate: %w", err)
+	}
+
+	req := (&dns.Msg{}).SetQuestion("c20-dnscrypt.example.net.", dns.TypeA)
+	resp, err := cli.Exchange(req, ri)
+	if err != nil {
+		return 0, err
+	}
+
+	return 1, vc20CheckAnswer(req, resp)
+}
+
+// vc20ExchangePlain sends one query over UDP and one over TCP.
+func vc20ExchangePlain(l dnssvc.Listener) (got int, err error) {
+	for _, netw := range []string{"udp", "tcp"} {
+		addr := l.LocalUDPAddr()
+		if netw == "tcp" {
+			addr = l.LocalTCPAddr()
+		}
+
+		cli := &dns.Client{Net: netw, Timeout: 5 * time.Second}
+		req := (&dns.Msg{}).SetQuestion("c20-plain-"+netw+".example.net.", dns.TypeA)
+		var resp *dns.Msg
+		resp, _, err = cli.Exchange(req, addr.String())
+		if err != nil {
+			return got, fmt.Errorf("%s: %w", netw, err)
+		} else if err = vc20CheckAnswer(req, resp); err != nil {
+			return got, fmt.Errorf("%s: %w", netw, err)
+		}
+
+		got++
+	}
+
+	return got, nil
+}
+
+// vc20RealListener starts a real listener on a loopback port, sends real
+// queries with a client of its protocol and shuts it down: the TLS
+// configuration, the connection limiter, the read, write and idle timeouts, the
+// pipeline and stream limits and the handle timeout are those built from the
+// configuration.
+func (o *vc20Outcome) vc20RealListener(c *configuration, rl *vc20RealListener) {
+	l, proto := rl.l, rl.srv.Protocol
+	tag := map[agd.Protocol]string{
+		agd.ProtoDNS:      "dns",
+		agd.ProtoDNSCrypt: "dnscrypt",
+		agd.ProtoDoH:      "doh",
+		agd.ProtoDoQ:      "doq",
+		agd.ProtoDoT:      "dot",
+	}[proto]
+	if tag == "" {
+		return
+	}
+
 	ctx := context.Background()
-	started := o.step("dot-start", func() (err error) { return l.Start(ctx) })
-	if !started {
+	// A listener that takes one port for both UDP and TCP can find the port of
+	// its first socket taken for the second one on a busy machine; that is the
+	// machine, not the configuration.
+	inUse := false
+	started := o.step(tag+"-start", func() (err error) {
+		for range 5 {
+			err = l.Start(ctx)
+			if err == nil || !strings.Contains(err.Error(), "address already in use") {
+				return err
+			}
+		}
+
+		inUse = true
+
+		return nil
+	})
+	if inUse {
+		o.timeouts++
+		o.classes = append(o.classes, tag+"-real-inconclusive")
+
+		return
+	} else if !started {
 		return
 	}
 
@@ -866,13 +1157,6 @@ func (o *vc20Outcome) vc20RealDoT(c *configuration, l dnssvc.Listener) {
 	must := vc20SaneTimeouts(c) && dc.ReadTimeout.Duration >= enough && dc.WriteTimeout.Duration >= enough &&
 		dc.TCPIdleTimeout.Duration >= enough
 
-	addr := l.LocalTCPAddr()
-	if addr == nil {
-		o.fail("the started DNS-over-TLS listener has no local address")
-
-		return
-	}
-
 	start := time.Now()
 	var got int
 	var err error
@@ -880,61 +1164,35 @@ func (o *vc20Outcome) vc20RealDoT(c *configuration, l dnssvc.Listener) {
 		defer func() {
 			if v := recover(); v != nil {
 				err = fmt.Errorf("harness client panicked: %v", v)
+				must = false
 			}
 		}()
 
-		cli := &dns.Client{
-			Net:       "tcp-tls",
-			TLSConfig: &tls.Config{InsecureSkipVerify: true, ServerName: "dns.example.com"},
-			Timeout:   5 * time.Second,
-		}
-
-		var conn *dns.Conn
-		conn, err = cli.Dial(addr.String())
-		if err != nil {
-			return
-		}
-		defer func() { _ = conn.Close() }()
-
-		_ = conn.SetDeadline(time.Now().Add(5 * time.Second))
-		ids := map[uint16]struct{}{}
-		for i, name := range []string{"c20-dot-1.example.net.", "c20-dot-2.example.net."} {
-			req := (&dns.Msg{}).SetQuestion(name, dns.TypeA)
-			req.Id = uint16(0xD070 + i)
-			ids[req.Id] = struct{}{}
-			if err = conn.WriteMsg(req); err != nil {
-				return
-			}
-		}
-
-		for range 2 {
-			var resp *dns.Msg
-			resp, err = conn.ReadMsg()
-			if err != nil {
-				return
-			}
-
-			if _, ok := ids[resp.Id]; !ok || resp.Rcode != dns.RcodeSuccess || len(resp.Answer) == 0 {
-				err = fmt.Errorf("unexpected response: %v", resp)
-
-				return
-			}
-
-			delete(ids, resp.Id)
-			got++
+		switch proto {
+		case agd.ProtoDNS:
+			got, err = vc20ExchangePlain(l)
+		case agd.ProtoDNSCrypt:
+			got, err = vc20ExchangeDNSCrypt(l, rl.srv)
+		case agd.ProtoDoH:
+			got, err = vc20ExchangeDoH(l)
+		case agd.ProtoDoQ:
+			got, err = vc20ExchangeDoQ(l)
+		case agd.ProtoDoT:
+			got, err = vc20ExchangeDoT(l)
 		}
 	}()
 
 	elapsed := time.Since(start)
 	switch {
 	case err == nil:
-		o.classes = append(o.classes, "dot-real-answered")
+		o.classes = append(o.classes, tag+"-real-answered")
 	case vc20IsTimeout(err) || elapsed >= 400*time.Millisecond || !must:
 		// Slow or bounded by a tiny configured timeout: decides nothing.
 		o.timeouts++
-		o.classes = append(o.classes, "dot-real-inconclusive")
+		o.classes = append(o.classes, tag+"-real-inconclusive")
 	default:
-		o.fail("real DNS-over-TLS listener on %s: %d of 2 pipelined queries answered, then after %s: %v", addr, got, elapsed, err)
+		o.realListenerFailed = true
+		o.fail("real %s listener of server %q: %d queries answered, then after %s: %v", tag, rl.srv.Name, got, elapsed, err)
 	}
 }
 
